@@ -85,7 +85,7 @@ def run(ctx):
                 ctx.counterexample("log-shape", inp, [e[:60] for e in exp], [e[:60] for e in log],
                                    "writes/hand-ups are not exactly one ACK + one hand-up per accepted data frame in stream order")
             impl = " ".join(outs) + " | " + final
-            if ans[1 + k] != impl:
+            if rxworld.mask_like(ans[1 + k], impl) != impl:
                 ctx.mismatch("rx", inp, ans[1 + k], impl)
 
 
